@@ -22,8 +22,13 @@ def handler (mode : String) (line : String) : String :=
       | none, _, _ => "(bad-line)"
       | _, none, _ => "(bad-case)"
       | _, _, none => "fail clause=unparsable-observation"
+  | "stats", [_, c, o] =>
+      match caseOf c, parse o with
+      | some k, some obs => stats k obs
+      | _, _ => "unparsable=1"
   | "model", _ => "(bad-line)"
   | "oracle", _ => "(bad-line)"
+  | "stats", _ => "(bad-line)"
   | _, _ => "(bad-mode)"
 
 end Rbgp.C05
